@@ -73,7 +73,7 @@ func c01Case(r *core.Result, s stmt, cpu int, refVerify bool) {
 func init() {
 	core.Register(&core.Check{
 		ID: "C01", Level: "exploration",
-		Rule:   "statements (label, n, zs, fs, representation and pointer sharing of Cs, NumCPU): (1) ALL zs in Z5^n, n<=3 (Z7 thorough) x NumCPU {1,2,3,16,17}; (2) ALL POLY^2 pairs at zs (5,5),(5,200), ALL REPR^2, all 5 pointer-sharing partitions of 3 commitments x {same z, distinct z}; (3) sizes n in {4..20,31,32,33,255,256,257} x z-pattern {equal, stride 1, stride 37} x NumCPU {1,16,17,64}; (4) labels; (5) the grouping seam for ALL (n,NumCPU) in [0,40]x[1,40] against the reference sum r^i f_i; (6) ALL arrival orders of the grouping fan-in (DPOR, unbounded) for NumCPU 2..4, n 2..6; oracle: CheckMultiProof on a fresh transcript = (true,nil), equal next challenge, reference verifier on a subset; non-trivial = at least two openings, an index > 0 or an overridden CPU count",
+		Rule:   "statements (label, n, zs, fs, representation and pointer sharing of Cs, NumCPU): (1) ALL zs in Z5^n, n<=3 (Z7 thorough) x NumCPU {1,2,3,16,17}; (2) ALL POLY^2 pairs at zs (5,5),(5,200), ALL REPR^2, all 5 pointer-sharing partitions of 3 commitments x {same z, distinct z}; (3) sizes n in {4..20,31,32,33,255,256,257,1025} x z-pattern {equal, stride 1, stride 37} x NumCPU {1,16,17,64}; (4) labels; (NumCPU, GOMAXPROCS) pairs that differ; (5) the grouping seam for ALL (n,NumCPU) in [0,40]x[1,40] against the reference sum r^i f_i; (6) ALL arrival orders of the grouping fan-in (DPOR, unbounded) for NumCPU 2..4, n 2..6; oracle: CheckMultiProof on a fresh transcript = (true,nil), equal next challenge, reference verifier on a subset; non-trivial = at least two openings, an index > 0 or an overridden CPU count",
 		Assume: []string{"NumCPU is driven through the vsched.NumCPU seam (runtime.NumCPU rewritten by the overlay)", "reference verifier = specification equation over math/big"},
 		Units:  c01Units,
 	})
